@@ -5,6 +5,7 @@ T7b  spatial.compute_tile_positions_per_frame    -> Gen.tilesPerAxisFloor    ((n
 T7c  utils.compute_plane_position_tiled_full     -> Gen.planePositionOffsets (guard, 0-based offsets, 1-based position)
 T7d  utils.are_plane_positions_tiled_full        -> Gen.tfInit, Gen.tfMaxStep, Gen.tfRanges, Gen.tfMatchStep
 T7e  spatial.iter_tiled_full_frame_data          -> Gen.tiledFullZOffset     (z origin of a focal plane; loop nest pinned)
+T7f  spatial._get_spatial_information (TILED_FULL)-> Gen.tiledFullFrameSlice  (frame number -> item of the iteration; statement pinned)
 """
 from __future__ import annotations
 
@@ -169,9 +170,41 @@ def build_T7e(tree):
         if needle not in txt:
             raise Unsupported('iter_tiled_full_frame_data changed (missing ' + needle[:60] + ')')
     block = _fresh(stmts + [ast.parse('return z_offset').body[0]])
-    text = translate_block(block, 'tiledFullZOffset', [('slice_index', 'int'), ('spacing_between_slices', 'rat')], {},
-                           doc='`spatial.iter_tiled_full_frame_data`: z origin of focal plane `slice_index` (1-based)')
+    if "z_origin=float(getattr(image_origin,'ZOffsetInSlideCoordinateSystem',0.0))" not in txt:
+        raise Unsupported('iter_tiled_full_frame_data: z_origin is no longer the z offset of the total pixel matrix origin (default 0)')
+    text = translate_block(block, 'tiledFullZOffset', [('slice_index', 'int'), ('spacing_between_slices', 'rat'), ('z_origin', 'rat')], {},
+                           doc='`spatial.iter_tiled_full_frame_data`: z origin of focal plane `slice_index` (1-based); `z_origin` = '
+                               'ZOffsetInSlideCoordinateSystem of the total pixel matrix origin (0 when absent)')
     return text, span_sha(stmts) + hashlib.sha256(txt.encode()).hexdigest()[:8]
+
+
+def build_T7f(tree):
+    """`_get_spatial_information`, TILED_FULL branch: the frame with number k takes the position of the k-th item of
+    iter_tiled_full_frame_data (`next(itertools.islice(iter_tiled_full_frame_data(dataset), frame_number - 1, frame_number))`).
+    The statement is pinned; its two islice bounds are translated."""
+    fn = find_func(tree, '_get_spatial_information')
+    hit = None
+    for node in ast.walk(fn):
+        if isinstance(node, ast.If) and _norm(node.test) == 'is_tiled_full':
+            for st in node.body:
+                if isinstance(st, ast.Assign) and 'iter_tiled_full_frame_data' in ast.unparse(st):
+                    hit = st
+    if hit is None:
+        raise Unsupported('_get_spatial_information: TILED_FULL branch no longer takes the position from iter_tiled_full_frame_data')
+    if _norm(hit.targets[0]) != '(_,_,_,_,*position)':
+        raise Unsupported('_get_spatial_information: unpacking of the per-frame item changed: ' + _norm(hit.targets[0]))
+    v = hit.value
+    ok = (isinstance(v, ast.Call) and _norm(v.func) == 'next' and len(v.args) == 1 and isinstance(v.args[0], ast.Call)
+          and _norm(v.args[0].func) == 'itertools.islice' and len(v.args[0].args) == 3
+          and _norm(v.args[0].args[0]) == 'iter_tiled_full_frame_data(dataset)')
+    if not ok:
+        raise Unsupported('_get_spatial_information: no longer next(itertools.islice(iter_tiled_full_frame_data(dataset), a, b))')
+    lo, hi = v.args[0].args[1], v.args[0].args[2]
+    block = _fresh([ast.Return(value=ast.Tuple(elts=[lo, hi], ctx=ast.Load()))])
+    text = translate_block(block, 'tiledFullFrameSlice', [('frame_number', 'int')], {},
+                           doc='`spatial._get_spatial_information` (TILED_FULL): bounds `(a, b)` of the `islice` of '
+                               '`iter_tiled_full_frame_data` whose first item gives the position of frame `frame_number`')
+    return text, span_sha([hit])
 
 
 TARGETS = {
@@ -180,4 +213,5 @@ TARGETS = {
     'T7c': {'file': 'utils.py', 'build': build_T7c},
     'T7d': {'file': 'utils.py', 'build': build_T7d},
     'T7e': {'file': 'spatial.py', 'build': build_T7e},
+    'T7f': {'file': 'spatial.py', 'build': build_T7f},
 }
